@@ -49,6 +49,91 @@ fn maybe_unrequested_soft(seed: u64, sc: &mut Scenario, one_in: usize) {
     sc.solves[0].problem = p;
 }
 
+/// On a fraction of the seeds: the "documented exemption" corner. A soft requirement names a solvable that its
+/// package excludes or locks out (legal: it is requested directly), a later soft requirement's dependencies ask
+/// for that package (so the exclusion / lock is discovered while the exempt solvable is installed), and further
+/// soft requirements on fresh, unrelated packages follow.
+fn maybe_exempt_soft_family(seed: u64, sc: &mut Scenario, one_in: usize) {
+    use crate::world::{Deps, Package, Solvable, VersionSet};
+    let mut r = Rng::stream(seed, "exempt-soft");
+    if !r.chance(1, one_in) {
+        return;
+    }
+    let w = &mut sc.world;
+    // pick (or make) a package with an excluded or locked-out candidate
+    let mut victims: Vec<(u32, u32)> = Vec::new();
+    for (n, p) in &w.packages {
+        if p.missing {
+            continue;
+        }
+        for (x, _) in &p.excluded {
+            victims.push((*n, *x));
+        }
+        if let Some(l) = p.locked {
+            for c in &p.candidates {
+                if *c != l {
+                    victims.push((*n, *c));
+                }
+            }
+        }
+    }
+    if victims.is_empty() {
+        let with_cands: Vec<u32> = w.packages.iter().filter(|(_, p)| !p.missing && !p.candidates.is_empty()).map(|(n, _)| *n).collect();
+        if with_cands.is_empty() {
+            return;
+        }
+        let n = *r.pick(&with_cands);
+        let p = w.packages.get_mut(&n).unwrap();
+        let x = *r.pick(&p.candidates);
+        if r.chance(1, 2) || p.candidates.len() < 2 {
+            p.excluded.push((x, 0));
+        } else {
+            let other = *p.candidates.iter().find(|c| **c != x).unwrap();
+            p.locked = Some(other);
+        }
+        victims.push((n, x));
+    }
+    let (vn, vx) = *r.pick(&victims);
+    let mut next_name = w.packages.keys().max().map(|m| m + 1).unwrap_or(0);
+    let mut next_s = w.solvables.keys().max().map(|m| m + 1).unwrap_or(0);
+    let mut next_vs = w.version_sets.keys().max().map(|m| m + 1).unwrap_or(0);
+    let mut new_pkg = |w: &mut crate::world::World, reqs: Vec<Req>| -> u32 {
+        let (n, s) = (next_name, next_s);
+        next_name += 1;
+        next_s += 1;
+        w.solvables.insert(s, Solvable { name: n, deps: Deps::Known { requirements: reqs, constrains: vec![] } });
+        w.packages.insert(n, Package { candidates: vec![s], rank: vec![s], favored: None, locked: None, excluded: vec![], hint: Hint::None, missing: false });
+        s
+    };
+    // y requires the victim's package (any candidate, or exactly the victim)
+    let all = {
+        let mut m = w.packages[&vn].candidates.clone();
+        m.sort();
+        m
+    };
+    let vs = next_vs;
+    next_vs += 1;
+    let _ = next_vs;
+    w.version_sets.insert(vs, VersionSet { name: vn, matches: if r.chance(1, 2) { all } else { vec![vx] } });
+    let y = new_pkg(w, vec![Req::Single(vs)]);
+    let mut soft = vec![vx, y];
+    for _ in 0..r.range(1, 2) {
+        soft.push(new_pkg(w, vec![]));
+    }
+    if r.chance(1, 3) {
+        soft.swap(0, 1);
+    }
+    let p = &mut sc.solves[0].problem;
+    if r.chance(1, 2) {
+        p.requirements.clear();
+        p.constraints.clear();
+    }
+    let pos = r.below(p.soft.len() + 1);
+    for (k, x) in soft.into_iter().enumerate() {
+        p.soft.insert(pos + k, x);
+    }
+}
+
 fn swarm(seed: u64, base: GenParams, tier: Tier) -> GenParams {
     // swarm: perturb the shape parameters per run
     let mut r = Rng::stream(seed, "swarm");
@@ -110,6 +195,8 @@ impl Property for C01 {
         }
         let mut sc = std_scenario(seed, &swarm(seed, base, tier), None);
         maybe_unrequested_soft(seed, &mut sc, 6);
+        maybe_exempt_soft_family(seed, &mut sc, 10);
+        sc.capture_state = true;
         vec![sc]
     }
     fn judge(&self, sc: &Scenario) -> Verdict {
@@ -125,6 +212,16 @@ impl Property for C01 {
                     let errs = validity_errors(&sc.world, &sc.solves[i].problem, s);
                     if let Some((cat, text)) = errs.first() {
                         v.violate(format!("invalid:{cat}"), format!("solve #{i} returned {s:?}: {text}"));
+                    }
+                    // invariants over the recorded clause database that imply validity for every input
+                    if let Some(Some(d)) = rec.dumps.get(i) {
+                        *v.probes.entry("internal_state_checked").or_insert(0) += 1;
+                        if let Some(e) = crate::internal::clause_truth(&sc.world, &sc.solves[i].problem, d) {
+                            v.violate("internal:clause-false", format!("solve #{i}: {e}"));
+                        }
+                        if let Some(e) = crate::internal::solution_encoded(&sc.world, &sc.solves[i].problem, s, &cand_received(&rec), d) {
+                            v.violate("internal:not-encoded", format!("solve #{i} returned {s:?}: {e}"));
+                        }
                     }
                 }
                 o if o.is_crash() => v.aborted_other = true,
@@ -161,7 +258,9 @@ impl Property for C02 {
         } else {
             GenParams::conflict_rich()
         };
-        vec![std_scenario(seed, &swarm(seed, base, tier), None)]
+        let mut sc = std_scenario(seed, &swarm(seed, base, tier), None);
+        sc.capture_state = true;
+        vec![sc]
     }
     fn judge(&self, sc: &Scenario) -> Verdict {
         let rec = execute(sc);
@@ -171,6 +270,21 @@ impl Property for C02 {
             if !sc.solves[i].problem.soft.is_empty() {
                 v.skipped_pre = true;
                 continue;
+            }
+            // certificate-style checks on the recorded clause database: every clause is a true fact and every
+            // learnt clause follows from the problem clauses (so neither verdict can rest on an unsound step)
+            if let Some(Some(d)) = rec.dumps.get(i) {
+                *v.probes.entry("internal_state_checked").or_insert(0) += 1;
+                let n_learnt = d.clauses.iter().filter(|c| matches!(c.kind, resolvo::verif_hooks::DumpKind::Learnt(_))).count();
+                *v.probes.entry("learnt_clauses_certified").or_insert(0) += n_learnt as u64;
+                if let Some(e) = crate::internal::clause_truth(&sc.world, &p, d) {
+                    v.evaluated = true;
+                    v.violate("internal:clause-false", format!("solve #{i}: {e}"));
+                }
+                if let Some(e) = crate::internal::learnt_sound(d) {
+                    v.evaluated = true;
+                    v.violate("internal:learnt-unsound", format!("solve #{i}: {e}"));
+                }
             }
             match o.verdict() {
                 None => v.aborted_other = true,
@@ -445,6 +559,7 @@ impl Property for C03 {
         base.max_root_constraints = 3;
         let mut sc = std_scenario(seed, &swarm(seed, base, tier), None);
         sc.render = true;
+        sc.capture_state = true;
         vec![sc]
     }
     fn judge(&self, sc: &Scenario) -> Verdict {
@@ -454,6 +569,12 @@ impl Property for C03 {
             match o {
                 Outcome::Unsolvable(Some(r)) if r.render_panic.is_none() => {
                     v.evaluated = true;
+                    // the report replaces learnt clauses by their recorded antecedents: those must suffice
+                    if let Some(Some(d)) = rec.dumps.get(i) {
+                        if let Some(e) = crate::internal::learnt_why_complete(d) {
+                            v.violate("internal:learnt-why", format!("solve #{i}: {e}"));
+                        }
+                    }
                     if r.graph.edges.len() >= 4 {
                         v.nontrivial = true;
                     }
@@ -524,6 +645,7 @@ impl Property for C04 {
         }
         let mut sc = std_scenario(seed, &swarm(seed, base, tier), None);
         maybe_unrequested_soft(seed, &mut sc, 4);
+        maybe_exempt_soft_family(seed, &mut sc, 10);
         sc.render = true;
         sc.cancel_during_render = r.chance(1, 4);
         vec![sc]
@@ -1581,6 +1703,7 @@ impl Property for C14 {
         base.max_root_reqs = 3;
         let mut sc = std_scenario(seed, &swarm(seed, base, tier), None);
         maybe_unrequested_soft(seed, &mut sc, 4);
+        maybe_exempt_soft_family(seed, &mut sc, 8);
         if sc.solves[0].problem.soft.is_empty() && !sc.world.solvables.is_empty() {
             let mut r = Rng::stream(seed, "soft");
             let all: Vec<u32> = sc.world.solvables.keys().copied().collect();
@@ -1662,7 +1785,69 @@ impl Property for C14 {
                         }
                     }
                 }
-                v.nontrivial = (accepted > 0 && rejected > 0) || applied_d;
+                // (e) independence: a soft solvable whose whole reachable universe (over every candidate of every
+                // version set it can reach) shares no package with the hard problem or with any other soft
+                // requirement, and whose own first-choice closure is a valid selection, cannot be affected by
+                // anything else and must be installed
+                let reach_names = |roots: &[Req], cons: &[u32], start: Option<u32>| -> BTreeSet<u32> {
+                    let w = &sc.world;
+                    let mut names: BTreeSet<u32> = BTreeSet::new();
+                    let mut seen: BTreeSet<u32> = BTreeSet::new();
+                    let mut queue: Vec<u32> = Vec::new();
+                    let mut visit_deps = |reqs: &[Req], cons: &[u32], names: &mut BTreeSet<u32>, queue: &mut Vec<u32>, seen: &mut BTreeSet<u32>| {
+                        for n in w.names_mentioned(reqs, cons) {
+                            names.insert(n);
+                            for c in w.cands(n) {
+                                if seen.insert(*c) {
+                                    queue.push(*c);
+                                }
+                            }
+                        }
+                    };
+                    visit_deps(roots, cons, &mut names, &mut queue, &mut seen);
+                    if let Some(x) = start {
+                        names.insert(w.solvable_name(x));
+                        for c in w.cands(w.solvable_name(x)) {
+                            if seen.insert(*c) {
+                                queue.push(*c);
+                            }
+                        }
+                        if seen.insert(x) {
+                            queue.push(x);
+                        }
+                    }
+                    while let Some(c) = queue.pop() {
+                        if let Some((r, k)) = w.known_deps(c) {
+                            visit_deps(r, k, &mut names, &mut queue, &mut seen);
+                        }
+                    }
+                    names
+                };
+                let hard_names = reach_names(&hard.requirements, &hard.constraints, None);
+                let soft_names: Vec<BTreeSet<u32>> = p.soft.iter().map(|x| reach_names(&[], &[], Some(*x))).collect();
+                let mut applied_e = false;
+                for (ix, x) in p.soft.iter().enumerate() {
+                    if set.contains(x) {
+                        continue;
+                    }
+                    let mine = &soft_names[ix];
+                    let independent = mine.is_disjoint(&hard_names)
+                        && soft_names.iter().enumerate().all(|(j, o)| j == ix || o.is_disjoint(mine));
+                    if !independent {
+                        continue;
+                    }
+                    let alone = ProblemSpec {
+                        requirements: vec![],
+                        constraints: vec![],
+                        soft: vec![],
+                    };
+                    let fc = first_choice(&sc.world, &alone, &[*x]);
+                    if fc.consistent_exclusive {
+                        applied_e = true;
+                        v.violate("independent-soft-skipped", format!("soft solvable {x} shares no package with the hard problem or any other soft requirement and its first-choice closure {:?} is valid, but it was not installed: {s:?}", fc.set));
+                    }
+                }
+                v.nontrivial = (accepted > 0 && rejected > 0) || applied_d || applied_e;
             }
             _ => {
                 v.evaluated = true;
